@@ -24,6 +24,9 @@ Decisions (documented here because they shape what is compared):
   away from the threshold by more than MARGIN_REL*thr + MARGIN_ABS (f32 rounding of the implementation's ratio is ~1e-7);
   near-threshold pairs are counted and skipped.  This is what catches a wrong `Universal2DBox::intersection`, which the
   model (fed with the implementation's own ratios) cannot see.
+* box histories: in 1/4 of the cases some boxes were created in an EARLIER state, had `gen_vertices()` called, and were
+  then rotated / moved / resized (rotate_mut, writes to the public fields, rotate) to the fields listed in `boxes`; the
+  property speaks about the boxes as given, so every oracle here (and the model) works from the CURRENT fields only.
 * a box without a score passes the score filter (the implementation substitutes f32::MAX for the missing score).
 * generated inputs are finite (no NaN/inf fields): the quantifier of C14 has none.
 """
@@ -67,6 +70,7 @@ def parse_line(line):
             continue
         f = b.split(",")
         boxes.append((int(f[0]), int(f[1]), parse_opt(f[2]), int(f[3]), int(f[4]), parse_opt(f[5])))
+    pre = [None if e == "-" else e for e in parts.get("pre", "").split(";") if e]
     m = {}
     for e in parts["M"].split(","):
         if not e:
@@ -83,13 +87,16 @@ def parse_line(line):
     ag = parts["again"]
     again = ag if ag in ("P", "-") else [int(x) for x in ag.split(",") if x]
     return {"kind": parts.get("kind", "?"), "thr": int(parts["thr"]), "st": parse_opt(parts["st"]), "boxes": boxes,
-            "kept": kept, "again": again, "M": m, "I": inter}
+            "kept": kept, "again": again, "M": m, "I": inter, "pre": pre if len(pre) == len(boxes) else []}
 
 
 def case_text(c):
     """the replayable input (what `nms replay` reads)"""
     bs = ";".join(",".join("N" if x is None else str(x) for x in b) for b in c["boxes"])
-    return "thr=%d st=%s boxes=%s" % (c["thr"], "N" if c["st"] is None else str(c["st"]), bs)
+    txt = "thr=%d st=%s boxes=%s" % (c["thr"], "N" if c["st"] is None else str(c["st"]), bs)
+    if c.get("pre") and any(p is not None for p in c["pre"]):
+        txt += " pre=%s" % ";".join("-" if p is None else p for p in c["pre"])
+    return txt
 
 
 def decoded(c):
@@ -97,6 +104,9 @@ def decoded(c):
         return None if b is None else vlib.f32_bits_to_float(b)
     return {"nms_threshold": f(c["thr"]), "score_threshold": f(c["st"]),
             "boxes(xc,yc,angle,aspect,height,score)": [[f(x) for x in b] for b in c["boxes"]],
+            "earlier_state_with_generated_vertices(xc,yc,angle,aspect,height,how)": [
+                None if p is None else [vlib.f32_bits_to_float(int(x)) for x in p.split(",")[:5]] + [int(p.split(",")[5])]
+                for p in c.get("pre", [])] or None,
             "kept": c["kept"], "again": c["again"]}
 
 
@@ -392,6 +402,8 @@ def shrink(c, key):
         while i < len(cur["boxes"]):
             cand = dict(cur)
             cand["boxes"] = cur["boxes"][:i] + cur["boxes"][i + chunk:]
+            if cur.get("pre"):
+                cand["pre"] = cur["pre"][:i] + cur["pre"][i + chunk:]
             if fails(cand):
                 cur = cand
                 progressed = True
@@ -407,6 +419,12 @@ def shrink(c, key):
         cand["st"] = None
         if fails(cand):
             cur = cand
+    for i in range(len(cur.get("pre") or [])):          # drop histories that are not needed for the failure
+        if cur["pre"][i] is not None:
+            cand = dict(cur)
+            cand["pre"] = cur["pre"][:i] + [None] + cur["pre"][i + 1:]
+            if fails(cand):
+                cur = cand
     return run_impl_on(case_text(cur))
 
 
